@@ -1,7 +1,10 @@
 (* C10 model driver: same case language as harness/c10_tls_unit.c, same output lines.
-   Runs the extracted Tls/TlsTreeModel.v, Tls/TlsKeysModel.v, Tls/TlsSysModel.v. *)
+   Runs the extracted Tls/TlsTreeModel.v, Tls/TlsKeysModel.v, Tls/TlsKeysLockModel.v, Tls/TlsSysModel.v.
+   The first case "variant <tagged> <locked>" selects the model variant (generation tags in the
+   tree / key table; key free list under a spin lock) - the check probes which one the library is. *)
 module T = TlsTreeModel
 module K = TlsKeysModel
+module L = TlsKeysLockModel
 module S = TlsSysModel
 let zs = Zio.z_of_string and sz = Zio.string_of_z
 let zi = Zio.z_of_int and iz = Zio.int_of_z
@@ -15,12 +18,18 @@ let b = Buffer.create 65536
 let out s = Buffer.add_string b s
 let flush_line () = print_string (Buffer.contents b); print_newline (); Buffer.clear b
 
+let tagged = ref false
+let locked = ref false
+let cfg () = if !tagged then T.cfg_tagged else T.cfg_plain
+
 let org = function T.Pool o -> "P" ^ sz o | T.Heap i -> "H" ^ sz i
 let rec dump = function
   | T.Nil -> out "-"
   | T.Leaf (o, es) ->
      out ("L" ^ org o ^ "{");
-     Stdlib.List.iteri (fun i v -> if v <> BinNums.Z0 then out (Printf.sprintf "%d=%s," i (sz v))) es;
+     Stdlib.List.iteri (fun i (v, g) ->
+         if !tagged then (if v <> BinNums.Z0 || g <> BinNums.Z0 then out (Printf.sprintf "%d=%s@%s," i (sz v) (sz g)))
+         else (if v <> BinNums.Z0 then out (Printf.sprintf "%d=%s," i (sz v)))) es;
      out "}"
   | T.Inner (o, c0, c1, c2, c3) ->
      out ("I" ^ org o ^ "("); dump c0; dump c1; dump c2; dump c3; out ")"
@@ -45,11 +54,109 @@ let dump_keys (ks : K.kst) =
   if !p <> -1 then out ("!" ^ cell !p);
   out " live=";
   for i = 0 to 1023 do if iz (ks.K.knext (zi i)) = -2 then run_add i done;
-  run_flush ()
+  run_flush ();
+  if !tagged then begin
+    out " gen=";
+    for i = 0 to 1023 do let g = ks.K.kgen (zi i) in if g <> BinNums.Z0 then out (Printf.sprintf "%d:%s," i (sz g)) done
+  end
 
 let read_op () =
   let o = next () in let a = zs (next ()) in
   if o.[0] = 'c' then K.Create a else K.Delete a
+
+(* lock-step run; [st] abstracts over the lock-free and the locked model *)
+type 'a sys_ops = {
+  head : 'a -> int;
+  idle : 'a -> int -> bool;
+  stepf : 'a -> (Datatypes.nat * K.ev) -> 'a option;
+  after : 'a -> int -> string option * BinNums.coq_Z option;   (* where the thread now waits / result *)
+  kst : 'a -> K.kst }
+
+let run_conc_with (type a) (ops : a sys_ops) (s0 : a) nt prog sched =
+  let s = ref s0 in
+  let res = Array.make nt [] in
+  let ok = ref true in
+  let step_entry t =
+    let h = ops.head !s in
+    if h <> -1 && not (valid h) then (out " CORRUPT"; ok := false)
+    else begin
+      let nat_t = Zio.nat_of_int t in
+      let what =
+        if ops.idle !s t then
+          (match prog.(t) with
+           | [] -> Some "-"
+           | o :: r -> prog.(t) <- r;
+                       (match ops.stepf !s (nat_t, K.Call o) with
+                        | Some s' -> s := s'; None
+                        | None -> Some "DISABLED"))
+        else (match ops.stepf !s (nat_t, K.Tick) with
+              | Some s' -> s := s'; None
+              | None -> Some "STUCK") in
+      let what = match what with
+        | Some w -> w
+        | None ->
+           (match ops.after !s t with
+            | _, Some r -> (match ops.stepf !s (nat_t, K.Ret) with Some s' -> s := s' | None -> ());
+                           res.(t) <- r :: res.(t); "R" ^ sz r
+            | Some w, None -> w
+            | None, None -> "idle") in
+      out (Printf.sprintf " %d:%s/f%s" t what (cell (ops.head !s)))
+    end in
+  out "conc";
+  Stdlib.List.iter (fun t -> if !ok then (if t < 0 || t >= nt then out " ?" else step_entry t)) sched;
+  if !ok then begin
+    out " ;";
+    (* run every program to its end, round robin in thread order *)
+    let fuel = ref 20000 in
+    let busy t = prog.(t) <> [] || not (ops.idle !s t) in
+    let any = ref true in
+    while !ok && !any && !fuel > 0 do
+      any := false;
+      for t = 0 to nt - 1 do
+        if !ok && busy t && !fuel > 0 then (any := true; decr fuel; step_entry t)
+      done
+    done
+  end;
+  out " | res";
+  for t = 0 to nt - 1 do
+    out (Printf.sprintf " T%d" t);
+    Stdlib.List.iter (fun r -> out (" " ^ sz r)) (Stdlib.List.rev res.(t))
+  done;
+  out " | "; dump_keys (ops.kst !s);
+  flush_line ()
+
+let free_ops = {
+  head = (fun s -> iz s.K.ks.K.kfree);
+  idle = (fun s t -> match Stdlib.List.nth s.K.threads t with K.Idle -> true | _ -> false);
+  stepf = (fun s a -> K.step !tagged s a);
+  after = (fun s t -> match Stdlib.List.nth s.K.threads t with
+                      | K.Done r -> None, Some r
+                      | K.AHead _ -> Some "ah", None
+                      | K.ANext _ as p -> Some ("an:" ^ sz (K.label_val p)), None
+                      | K.ACas _ as p -> Some ("ac:" ^ sz (K.label_val p)), None
+                      | K.DCheck _ as p -> Some ("dk:" ^ sz (K.label_val p)), None
+                      | K.DHead _ as p -> Some ("dh:" ^ sz (K.label_val p)), None
+                      | K.DCas _ as p -> Some ("dc:" ^ sz (K.label_val p)), None
+                      | K.Idle -> None, None);
+  kst = (fun s -> s.K.ks) }
+
+let lock_ops = {
+  head = (fun s -> iz s.L.lks.K.kfree);
+  idle = (fun s t -> match Stdlib.List.nth s.L.lthreads t with L.LIdle -> true | _ -> false);
+  stepf = (fun s a -> L.lstep !tagged s a);
+  after = (fun s t -> match Stdlib.List.nth s.L.lthreads t with
+                      | L.LDone r -> None, Some r
+                      | L.LTry _ -> Some "st", None
+                      | L.LWait _ -> Some "sw", None
+                      | L.LUnlock _ -> Some "su", None
+                      | L.LAHead _ -> Some "ah", None
+                      | L.LANext _ as p -> Some ("an:" ^ sz (L.llabel_val p)), None
+                      | L.LAStore _ as p -> Some ("ac:" ^ sz (L.llabel_val p)), None
+                      | L.LDCheck _ as p -> Some ("dk:" ^ sz (L.llabel_val p)), None
+                      | L.LDHead _ as p -> Some ("dh:" ^ sz (L.llabel_val p)), None
+                      | L.LDStore _ as p -> Some ("dc:" ^ sz (L.llabel_val p)), None
+                      | L.LIdle -> None, None);
+  kst = (fun s -> s.L.lks) }
 
 let run_conc () =
   let nt = nexti () in
@@ -61,80 +168,36 @@ let run_conc () =
   let _ = next () in
   let m = nexti () in
   let sched = Stdlib.List.init m (fun _ -> nexti ()) in
-  let s = ref (K.init (Zio.nat_of_int nt)) in
-  let res = Array.make nt [] in
-  let ok = ref true in
-  let pc_of t = Stdlib.List.nth (!s).K.threads t in
-  let step_entry t =
-    let h = iz (!s).K.ks.K.kfree in
-    if h <> -1 && not (valid h) then (out " CORRUPT"; ok := false)
-    else begin
-      let nat_t = Zio.nat_of_int t in
-      let what =
-        (match pc_of t with
-         | K.Idle ->
-            (match prog.(t) with
-             | [] -> Some "-"
-             | o :: r -> prog.(t) <- r;
-                         (match K.step !s (nat_t, K.Call o) with
-                          | Some s' -> s := s'; None
-                          | None -> Some "DISABLED"))
-         | _ -> (match K.step !s (nat_t, K.Tick) with
-                 | Some s' -> s := s'; None
-                 | None -> Some "STUCK")) in
-      let what = match what with
-        | Some w -> w
-        | None ->
-           (match pc_of t with
-            | K.Done r -> (match K.step !s (nat_t, K.Ret) with Some s' -> s := s' | None -> ());
-                          res.(t) <- r :: res.(t); "R" ^ sz r
-            | K.AHead _ -> "ah"
-            | K.ANext _ as p -> "an:" ^ sz (K.label_val p)
-            | K.ACas _ as p -> "ac:" ^ sz (K.label_val p)
-            | K.DCheck _ as p -> "dk:" ^ sz (K.label_val p)
-            | K.DHead _ as p -> "dh:" ^ sz (K.label_val p)
-            | K.DCas _ as p -> "dc:" ^ sz (K.label_val p)
-            | K.Idle -> "idle") in
-      out (Printf.sprintf " %d:%s/f%s" t what (cell (iz (!s).K.ks.K.kfree)))
-    end in
-  out "conc";
-  Stdlib.List.iter (fun t -> if !ok then (if t < 0 || t >= nt then out " ?" else step_entry t)) sched;
-  if !ok then begin
-    out " ;";
-    for t = 0 to nt - 1 do
-      let fuel = ref 4000 in
-      let busy () = prog.(t) <> [] || (match pc_of t with K.Idle -> false | _ -> true) in
-      while !ok && busy () && !fuel > 0 do decr fuel; step_entry t done
-    done
-  end;
-  out " | res";
-  for t = 0 to nt - 1 do
-    out (Printf.sprintf " T%d" t);
-    Stdlib.List.iter (fun r -> out (" " ^ sz r)) (Stdlib.List.rev res.(t))
-  done;
-  out " | "; dump_keys (!s).K.ks;
-  flush_line ()
+  if !locked then run_conc_with lock_ops (L.linit (Zio.nat_of_int nt)) nt prog sched
+  else run_conc_with free_ops (K.init (Zio.nat_of_int nt)) nt prog sched
 
 let () =
   try while true do
     let op = next () in
     (match op with
+     | "variant" ->
+        tagged := (nexti () <> 0); locked := (nexti () <> 0);
+        out (Printf.sprintf "variant %d %d" (if !tagged then 1 else 0) (if !locked then 1 else 0)); flush_line ()
      | "consts" ->
-        out "consts"; Stdlib.List.iter (fun z -> out (" " ^ sz z)) T.consts; flush_line ()
+        out "consts"; Stdlib.List.iter (fun z -> out (" " ^ sz z)) (T.consts (cfg ())); flush_line ()
      | "tree" ->
         let n = nexti () in
         let t = ref T.empty and bad = ref false in
+        let kg = Array.make 1024 0 in
+        let kgf z = let k = iz z in if valid k then zi kg.(k) else BinNums.Z0 in
         out "tree";
         for _ = 1 to n do
           let o = next () in
           (match o.[0] with
            | 's' -> let k = zs (next ()) in let v = zs (next ()) in
                     if !bad then out " ASSERT" else
-                    (match T.set !t k v with
+                    (match T.set (cfg ()) kgf !t k v with
                      | Some (t', rc) -> t := t'; out (" r" ^ sz rc)
                      | None -> bad := true; out " ASSERT")
            | 'g' -> let k = zs (next ()) in
-                    (match T.get !t k with Some v -> out (" v" ^ sz v) | None -> out " ASSERT")
+                    (match T.get kgf !t k with Some v -> out (" v" ^ sz v) | None -> out " ASSERT")
+           | 'b' -> let k = nexti () in
+                    (if !tagged && valid k then kg.(k) <- (kg.(k) + 1) land 0xFFFFFFFF); out " b"
            | 'd' -> out " "; dump (!t).T.root
            | _ -> failwith "bad tree op")
         done;
@@ -145,13 +208,14 @@ let () =
         out "keys";
         for _ = 1 to n do
           let o = read_op () in
-          (match K.seq_op !ks !h o with
+          (match K.seq_op !tagged !ks !h o with
            | Some ((k', h'), r) -> ks := k'; h := h'; out (" " ^ sz r)
            | None -> out " OUTOFFUEL")
         done;
         out " "; dump_keys !ks; flush_line ()
      | "sys" ->
         let nt = nexti () in let n = nexti () in
+        let var = { S.v_tagged = !tagged; S.v_cfg = cfg () } in
         let s = ref (S.sys_init (Zio.nat_of_int nt)) in
         out "sys";
         for _ = 1 to n do
@@ -163,7 +227,7 @@ let () =
             | 'g' -> let t = nexti () in let k = zs (next ()) in S.TGet (Zio.nat_of_int t, k)
             | 'n' -> S.TSpawn (Zio.nat_of_int (nexti ()))
             | _ -> failwith "bad sys op") in
-          (match S.sys_step !s sop with
+          (match S.sys_step var !s sop with
            | Some (s', r) -> s := s'; out (" " ^ sz r)
            | None -> out " NONE")
         done;
